@@ -247,6 +247,7 @@ Pair_Quick ==
 Pair_Thorough == FullLeaves
 
 Deep_None == {}
+Deep_Quick == {Leaf("SEEN"), LeafS("FROM", pAnn), LeafSet("SEQ", <<R(2, 3)>>)}   \* a small sample of depth 3
 Deep_Thorough ==
   {Leaf("SEEN"), Leaf("DELETED"), Leaf("NEW"), LeafS("KEYWORD", pKW1), LeafN("ON", 2), LeafN("SENTSINCE", 2),
    LeafN("LARGER", Thr), LeafS("FROM", pAnn), LeafS("BODY", pGnu), LeafH(hXCust, <<>>),
